@@ -499,7 +499,11 @@ class WARCRecorder(object):
         Returns:
             str, None: A string in the form ``type/subtype`` or None.
         '''
-        match = re.match(r'([a-zA-Z0-9-]+/[a-zA-Z0-9-]+)', value)
+        # type "/" subtype, both are a token as in RFC 7230 section 3.2.6
+        match = re.match(
+            r'''([a-zA-Z0-9!#$%&'*+.^_`|~-]+/[a-zA-Z0-9!#$%&'*+.^_`|~-]+)''',
+            value
+        )
 
         if match:
             return match.group(1)
